@@ -227,6 +227,72 @@ def r_gather_complete(ctx: Ctx, rule: str, funcs=("gather_and_close",)):
                            detail="" if literal_true(re_) else "a spawner cancelled before it ever ran makes this gather raise CancelledError at once although no task or callback raised")
 
 
+_MIGRATES = {"_tasks_running": {"_tasks_cancelled", "_tasks_ended"}, "_tasks_cancelled": {"_tasks_ended"}, "_tasks_ended": set()}
+
+
+def _closure(u: frozenset) -> frozenset:
+    out = set(u)
+    for x in u:
+        out |= _MIGRATES.get(x, set())
+    return frozenset(out)
+
+
+def r_forget_only_gathered(ctx: Ctx, rule: str):
+    """Dataflow over gather_and_close: U = the task registries that may hold a task that was an argument of no gather yet.
+    entry: all three; `await gather(F...)`: U := closure(U - F); any other suspension: U := closure(U) (a task that is running
+    may end - move to the cancelled/ended registry - while the method is suspended); a bulk forget of registry R needs R not in U."""
+    rep = ctx.rep
+    rep.rule(rule, "FORGET-ONLY-GATHERED(gather_and_close): may-analysis of the registries that can still hold a task that was an argument of "
+                   "no gather (a running task migrates to cancelled/ended during any suspension); a registry is cleared only when it cannot - "
+                   "otherwise that task's exception is never reported")
+    for f in ctx.pool_funcs("gather_and_close"):
+        g = ctx.an.cfg(f)
+        gset: Dict[int, Set[str]] = {}
+        for x in gathers(ctx, f):
+            for c in _copies(g, [x]):
+                gset[id(c)] = gather_fields(ctx, f, x) & TASK_FIELDS
+        # a delegated flush gathers what its own gathers gather
+        for n in g.nodes:
+            if n.op == "await" and n.awaited is not None and n.awaited.kind == "pkg" and n.inlined is None and n.awaited.targets \
+                    and all(t.name == "flush" and ctx.in_pool(t) for t in n.awaited.targets):
+                flds: Optional[Set[str]] = None
+                for t in n.awaited.targets:
+                    mine = set()
+                    for ig in gathers(ctx, t):
+                        mine |= gather_fields(ctx, t, ig) & TASK_FIELDS
+                    flds = mine if flds is None else (flds & mine)
+                gset[id(n)] = flds or set()
+        state: Dict[int, frozenset] = {id(g.entry): frozenset(TASK_FIELDS)}
+        work = [g.entry]
+        while work:
+            n = work.pop()
+            cur = state[id(n)]
+            if id(n) in gset:
+                out = _closure(frozenset(cur - gset[id(n)]))
+            elif ctx.effective(n):
+                out = _closure(cur)
+            else:
+                out = cur
+            for s, _lab in n.succ:
+                old = state.get(id(s))
+                new = out if old is None else (old | out)
+                if new != old:
+                    state[id(s)] = new
+                    work.append(s)
+        forgets = [n for n in g.nodes if n.pred and any(e.kind in ("clear", "assign") and e.path.count(".") == 1 and field_of(e.path) in TASK_FIELDS for e in ctx.eff.of_node(n))]
+        rep.floor(rule, "bulk forgets of task registries in gather_and_close",
+                  len({(id(n.ast), field_of(e.path)) for n in forgets for e in ctx.eff.of_node(n) if e.kind in ("clear", "assign") and field_of(e.path) in TASK_FIELDS}), 3)
+        for site in ctx.distinct_sites(forgets):
+            bad = None
+            for c in [x for x in forgets if x.ast is site.ast and x.op == site.op]:
+                for e in ctx.eff.of_node(c):
+                    if e.kind in ("clear", "assign") and field_of(e.path) in TASK_FIELDS and field_of(e.path) in state.get(id(c), frozenset()):
+                        bad = (c, field_of(e.path))
+            rep.ob(rule, "a registry is forgotten only when each task it can hold was an argument of a gather", bad is None, node=site,
+                   detail="" if bad is None else f"{bad[1]} may hold a task that no gather received: it was running when the earlier wait took its members and moved here "
+                                                 "while gather_and_close was suspended; it is forgotten un-awaited and its exception is never raised or collected")
+
+
 def r_return_exceptions(ctx: Ctx, rule: str, funcs=("flush", "gather_and_close")):
     rep = ctx.rep
     rep.rule(rule, "WIRING(return_exceptions): every gather over pool tasks in flush / gather_and_close receives the caller's return_exceptions "
